@@ -415,10 +415,14 @@ PROPS["C09"] = {
             "stand-in struct / pointer to one, a value of a different size, a same-size value of another scalar type (counted, not judged). Oracle: the "
             "caller receives bit-exactly the supplied value as the declared type (nil -> typed zero for pointer/interface/slice/map/chan/func, nil error == nil, "
             "dynamic types intact, stand-in bytes / address identical); a wrong-size value makes Return panic. conditions: nil / typed nil / "
-            "stand-in values given to When match equal arguments of the declared type and not different ones. Distinct by (function, supply kinds, codes).",
+            "stand-in values given to When match equal arguments of the declared type and not different ones. condition-histories: 1..3 configuration steps "
+            "on one corpus function (half of them variadic), each When(values) / In(tuple, tuple) / When then In on one stub with per-parameter values "
+            "supplied as ordinary / nil / stand-in struct / stand-in pointer; calls with independently built equal arguments must yield the condition's "
+            "result, a call differing in one scalar argument the default. Distinct by (function, supply kinds, codes).",
     "assumptions": ["same-size values of a different non-struct type are outside the enumerated guarantees"],
     "floors": [("results", "rejected-wrong-size", 300), ("results", "delivered/untyped-nil/func", 8), ("results", "delivered/standin/struct", 50),
-               ("results", "delivered/standin-ptr/ptr", 5), ("results", "delivered/untyped-nil/interface", 50), ("results", "standin/pointer-shaped-struct", 20)],
+               ("results", "delivered/standin-ptr/ptr", 5), ("results", "delivered/untyped-nil/interface", 50), ("results", "standin/pointer-shaped-struct", 20),
+               ("condition-histories", "condhist/multi-step-variadic", 100), ("condition-histories", "condhist/variadic/in", 100)],
 }
 
 PROPS["C12"] = {
